@@ -361,6 +361,26 @@ fn explore(ctx: &mut Ctx) {
             }
         }
     }
+    // medium lengths around powers of two x sizes around powers of two: structured histories
+    for len in [15usize, 16, 17, 31, 32, 33, 63, 64, 65, 100] {
+        for size in [1usize, 2, 3, 4, 5, 7, 8, 9, 15, 16, 17, 31, 32, 33, 64, 65, 99, 100, 101] {
+            for kind in KINDS {
+                if matches!(kind, Kind::Iter | Kind::IterCopied) && size != 1 {
+                    continue;
+                }
+                if kind == Kind::ArrayChunks && size > 5 {
+                    continue;
+                }
+                let steps = (item_count(kind, len, size) as u32 + 2).min(64);
+                for variant in VARIANTS {
+                    for hist in [0u64, u64::MAX, 0xAAAA_AAAA_AAAA_AAAA, 0x5555_5555_5555_5555, 0x2492_4924_9249_2492, 0xFFFF_FFFF_0000_0000, 1, 2, 1 << (steps.saturating_sub(3))] {
+                        eval(ctx, Case { kind, variant, unit: false, len, size, hist, steps });
+                    }
+                }
+            }
+        }
+    }
+    ctx.exhaustive_part("lengths {15,16,17,31,32,33,63,64,65,100} x 19 sizes around powers of two x 8 kinds x 3 variants x 9 structured histories run to exhaustion");
     // huge chunk / window sizes (valid for std: any non-zero size) and huge zero-sized slices
     let big = [usize::MAX, usize::MAX - 1, usize::MAX / 2 + 1, isize::MAX as usize];
     for len in 0..=8usize {
